@@ -28,15 +28,19 @@ def seed():
 
 
 VH_NOSTD = os.path.join(WORK, "target_nostd", "debug", "vh")
+VH_NOMUTEX = os.path.join(WORK, "target_nomutex", "debug", "vh")
 
 
-def build_harness(nostd=False):
+def build_harness(nostd=False, nomutex=False):
     """cargo build of the harness crate (path dependency on /repo => rebuilds from the working tree).
     nostd: unimock built without std (critical-section + spin-lock), separate target directory."""
     t = time.time()
     cmd = ["cargo", "build", "--offline"]
     if nostd:
         cmd += ["--no-default-features", "--features", "nostd", "--target-dir", os.path.join(WORK, "target_nostd")]
+    if nomutex:
+        # critical-section only: no mutex API at all (single-use returns cannot be stored); replay only
+        cmd += ["--no-default-features", "--features", "nomutex", "--target-dir", os.path.join(WORK, "target_nomutex")]
     env = dict(os.environ)
     env["CARGO_NET_OFFLINE"] = "true"
     p = subprocess.run(cmd, cwd=HARNESS, env=env, capture_output=True, text=True)
